@@ -338,7 +338,7 @@ class ScalarToFile(Module):
                         tags.append(f"{s.tag}{list(it.multi_index)}")
                     it.iternext()
             else:
-                dat.append(s.state.__format__(self.format))
+                dat.append(np.asarray(s.state).item().__format__(self.format))
                 if tags is not None:
                     tags.append(s.tag)
 
